@@ -100,6 +100,13 @@ func genRepair(r *rng, index int) *Spec {
 	sp.HealAtMs = 40000
 	sp.LivenessMs = sp.boundMs() + int64(c.RepairMaxAttempts+2)*c.RepairCooldownMs*2
 	sp.DurationMs = sp.HealAtMs + sp.LivenessMs
+	if c.AggressiveRepair && r.chance(0.5) {
+		// a repair that consists of several statements fails at its last one
+		for _, h := range ha[1:] {
+			sp.StmtFail = append(sp.StmtFail, StmtFail{Host: h, Prefix: "START ", After: "CHANGE ", Errno: r.pickInt(1105, 2013, 1205), FromMs: 0, ToMs: sp.DurationMs})
+		}
+		label += " last_statement_of_reset_fails"
+	}
 	sp.Variant = fmt.Sprintf("%s aggressive=%v attempts=%d cooldown=%d semi=%v", label, c.AggressiveRepair, c.RepairMaxAttempts, c.RepairCooldownMs, c.SemiSync)
 	sp.Primary = []string{"C10"}
 	return sp
